@@ -1,5 +1,6 @@
 //! Tree generators: enumerated families first, then random trees over every node kind.
 use super::tree::*;
+use super::types::*;
 use crate::rng::Rng;
 
 pub fn id(s: &str) -> Ex {
@@ -153,6 +154,117 @@ fn wrap_contexts(e: Ex) -> Vec<Blk> {
     ]
 }
 
+/// every type node kind, in every position a type can take
+pub fn type_family(rng: &mut Rng, thorough: bool) -> Vec<(&'static str, Blk)> {
+    let mut out = Vec::new();
+    let t = tname("T");
+    let u = tname("U");
+    let f0 = |ret: TyRet| Ty::Func(vec![], vec![], None, Box::new(ret));
+    let kinds: Vec<Ty> = vec![
+        t.clone(),
+        Ty::Name("Map".into(), vec![TyArg::Ty(t.clone()), TyArg::Ty(u.clone())]),
+        Ty::Name("Pack".into(), vec![TyArg::Pack(TyPack { types: vec![], variadic: None }), TyArg::Var(TyVar::Variadic(t.clone())), TyArg::Var(TyVar::Generic("P".into()))]),
+        Ty::Name("Nested".into(), vec![TyArg::Ty(Ty::Name("Inner".into(), vec![TyArg::Ty(t.clone())]))]),
+        Ty::Field("ns".into(), "T".into(), vec![]),
+        Ty::Field("ns".into(), "G".into(), vec![TyArg::Ty(u.clone())]),
+        Ty::Nil,
+        Ty::True,
+        Ty::False,
+        Ty::Str(b"s".to_vec()),
+        Ty::Str(long_text(64)),
+        Ty::Array(Box::new(t.clone())),
+        Ty::Table(vec![]),
+        Ty::Table(vec![TyEntry::Prop("a".into(), t.clone()), TyEntry::Literal(b"k k".to_vec(), u.clone()), TyEntry::Indexer(tname("string"), Ty::Optional(Box::new(t.clone())))]),
+        Ty::Table(vec![TyEntry::Indexer(Ty::Union(vec![t.clone(), u.clone()]), t.clone())]),
+        Ty::Table(vec![TyEntry::Literal(long_text(64), t.clone())]),
+        Ty::TypeOf(Box::new(Ex::Field(bx(id("a")), "b".into()))),
+        Ty::Paren(Box::new(t.clone())),
+        f0(TyRet::Pack(TyPack { types: vec![], variadic: None })),
+        Ty::Func(vec![Generic::Var("G".into()), Generic::Pack("P".into())], vec![(Some("n".into()), tname("G")), (None, u.clone())], Some(Box::new(TyVar::Generic("P".into()))), Box::new(TyRet::Ty(t.clone()))),
+        Ty::Func(vec![], vec![(None, t.clone())], Some(Box::new(TyVar::Variadic(u.clone()))), Box::new(TyRet::Pack(TyPack { types: vec![t.clone(), u.clone()], variadic: Some(TyVar::Variadic(t.clone())) }))),
+        f0(TyRet::Var(TyVar::Variadic(t.clone()))),
+        f0(TyRet::Var(TyVar::Generic("P".into()))),
+        f0(TyRet::Ty(f0(TyRet::Ty(t.clone())))),
+        f0(TyRet::Ty(Ty::Union(vec![t.clone(), u.clone()]))),
+        Ty::Optional(Box::new(t.clone())),
+        Ty::Optional(Box::new(Ty::Optional(Box::new(t.clone())))),
+        Ty::Optional(Box::new(Ty::Union(vec![t.clone(), u.clone()]))),
+        Ty::Optional(Box::new(f0(TyRet::Ty(t.clone())))),
+        Ty::Union(vec![t.clone(), u.clone()]),
+        Ty::Union(vec![t.clone(), Ty::Nil, Ty::Str(b"s".to_vec())]),
+        Ty::Union(vec![Ty::Inter(vec![t.clone(), u.clone()]), t.clone()]),
+        Ty::Union(vec![t.clone(), Ty::Inter(vec![t.clone(), u.clone()])]),
+        Ty::Union(vec![f0(TyRet::Ty(t.clone())), u.clone()]),
+        Ty::Union(vec![t.clone(), f0(TyRet::Ty(u.clone()))]),
+        Ty::Union(vec![Ty::Optional(Box::new(t.clone())), u.clone()]),
+        Ty::Union(vec![Ty::Union(vec![t.clone(), u.clone()]), t.clone()]),
+        Ty::Inter(vec![t.clone(), u.clone()]),
+        Ty::Inter(vec![Ty::Union(vec![t.clone(), u.clone()]), t.clone()]),
+        Ty::Inter(vec![t.clone(), Ty::Optional(Box::new(u.clone()))]),
+        Ty::Inter(vec![f0(TyRet::Ty(t.clone())), f0(TyRet::Ty(u.clone()))]),
+    ];
+    let a = id("a");
+    let position = |ty: &Ty| -> Vec<Blk> {
+        vec![
+            stmts(vec![St::TypeDecl(false, "X".into(), vec![], ty.clone())]),
+            stmts(vec![St::TypeDecl(true, "X".into(), vec![Generic::Var("A".into())], ty.clone())]),
+            stmts(vec![St::TypeDecl(false, "X".into(), vec![Generic::Var("A".into()), Generic::VarDefault("B".into(), ty.clone())], ty.clone())]),
+            stmts(vec![St::TypeDecl(false, "X".into(), vec![Generic::Var("A".into()), Generic::Pack("P".into())], ty.clone()), St::TypeDecl(false, "Y".into(), vec![], ty.clone())]),
+            stmts(vec![St::LocalT(vec![("v".into(), Some(ty.clone())), ("w".into(), None), ("x".into(), Some(ty.clone()))], vec![a.clone()])]),
+            stmts(vec![St::LocalT(vec![("v".into(), Some(ty.clone()))], vec![]), St::CallSt(call(a.clone(), vec![]))]),
+            ret(vec![Ex::Cast(bx(a.clone()), ty.clone())]),
+            ret(vec![bin(4, Ex::Cast(bx(a.clone()), ty.clone()), a.clone()), bin(6, a.clone(), Ex::Cast(bx(a.clone()), ty.clone()))]),
+            ret(vec![bin(0, Ex::Cast(bx(a.clone()), ty.clone()), Ex::Cast(bx(a.clone()), ty.clone())), Ex::Table(vec![Entry::Val(Ex::Cast(bx(a.clone()), ty.clone()))])]),
+            stmts(vec![St::Local(vec!["v".into()], vec![Ex::Cast(bx(a.clone()), ty.clone())]), St::CallSt(call(paren(a.clone()), vec![]))]),
+            stmts(vec![St::If(vec![(Ex::Cast(bx(a.clone()), ty.clone()), Blk::default())], None)]),
+            stmts(vec![St::LocalFn(
+                "f".into(),
+                Func {
+                    params: vec!["p".into(), "q".into()],
+                    variadic: true,
+                    body: Blk::default(),
+                    sig: Some(Box::new(Sig {
+                        generics: vec![Generic::Var("G".into()), Generic::Pack("P".into())],
+                        param_types: vec![Some(ty.clone()), None],
+                        variadic_type: Some(TyVar::Variadic(ty.clone())),
+                        ret: Some(TyRet::Ty(ty.clone())),
+                    })),
+                },
+            )]),
+            ret(vec![Ex::Func(Box::new(Func {
+                params: vec!["p".into()],
+                variadic: false,
+                body: ret(vec![id("p")]),
+                sig: Some(Box::new(Sig { generics: vec![], param_types: vec![Some(ty.clone())], variadic_type: None, ret: Some(TyRet::Pack(TyPack { types: vec![ty.clone(), ty.clone()], variadic: None })) })),
+            }))]),
+            stmts(vec![St::Function(
+                vec!["m".into(), "n".into()],
+                Some("o".into()),
+                Func {
+                    params: vec![],
+                    variadic: true,
+                    body: Blk::default(),
+                    sig: Some(Box::new(Sig { generics: vec![Generic::Pack("P".into())], param_types: vec![], variadic_type: Some(TyVar::Generic("P".into())), ret: Some(TyRet::Var(TyVar::Generic("P".into()))) })),
+                },
+            )]),
+        ]
+    };
+    for ty in &kinds {
+        for b in position(ty) {
+            out.push(("type-kind", b));
+        }
+    }
+    let n = if thorough { 4000 } else { 1000 };
+    for _ in 0..n {
+        let depth = 1 + rng.below(3);
+        let ty = gen_ty(rng, depth);
+        let positions = position(&ty);
+        let i = rng.below(positions.len());
+        out.push(("type-random", positions[i].clone()));
+    }
+    out
+}
+
 /// Enumerated families. `thorough` adds all operator triples.
 pub fn enumerated(thorough: bool, rng: &mut Rng) -> Vec<(&'static str, Blk)> {
     let mut out: Vec<(&'static str, Blk)> = Vec::new();
@@ -299,12 +411,12 @@ pub fn enumerated(thorough: bool, rng: &mut Rng) -> Vec<(&'static str, Blk)> {
         num(1.0),
         Ex::Str(b"s".to_vec()),
         Ex::Table(vec![]),
-        Ex::Func(Box::new(Func { params: vec![], variadic: false, body: stmts(vec![]) })),
+        Ex::Func(Box::new(Func { params: vec![], variadic: false, body: stmts(vec![]), sig: None })),
         Ex::True,
         Ex::Nil,
         Ex::Varargs,
-        Ex::Cast(bx(a.clone()), "T".into()),
-        bin(CONCAT, a.clone(), Ex::Cast(bx(b.clone()), "T".into())),
+        Ex::Cast(bx(a.clone()), tname("T")),
+        bin(CONCAT, a.clone(), Ex::Cast(bx(b.clone()), tname("T"))),
     ];
     let mut firsts: Vec<St> = Vec::new();
     for v in &value_ends {
@@ -321,8 +433,8 @@ pub fn enumerated(thorough: bool, rng: &mut Rng) -> Vec<(&'static str, Blk)> {
     firsts.push(St::Do(stmts(vec![St::CallSt(call(a.clone(), vec![]))])));
     firsts.push(St::While(a.clone(), stmts(vec![])));
     firsts.push(St::If(vec![(a.clone(), stmts(vec![]))], Some(stmts(vec![]))));
-    firsts.push(St::Function(vec!["f".into()], None, Func { params: vec![], variadic: false, body: stmts(vec![]) }));
-    firsts.push(St::LocalFn("f".into(), Func { params: vec!["p".into()], variadic: true, body: ret(vec![Ex::Varargs]) }));
+    firsts.push(St::Function(vec!["f".into()], None, Func { params: vec![], variadic: false, body: stmts(vec![]), sig: None }));
+    firsts.push(St::LocalFn("f".into(), Func { params: vec!["p".into()], variadic: true, body: ret(vec![Ex::Varargs]), sig: None }));
     firsts.push(St::GFor(vec!["k".into(), "v".into()], vec![call(id("pairs"), vec![a.clone()])], stmts(vec![])));
     firsts.push(St::NFor("i".into(), num(1.0), a.clone(), None, stmts(vec![])));
     for first in &firsts {
@@ -346,7 +458,7 @@ pub fn enumerated(thorough: bool, rng: &mut Rng) -> Vec<(&'static str, Blk)> {
             "semicolon",
             stmts(vec![St::LocalFn(
                 "f".into(),
-                Func { params: vec![], variadic: false, body: stmts(vec![St::CallSt(call(a.clone(), vec![])), second.clone()]) },
+                Func { params: vec![], variadic: false, body: stmts(vec![St::CallSt(call(a.clone(), vec![])), second.clone()]), sig: None },
             )]),
         ));
     }
@@ -354,7 +466,7 @@ pub fn enumerated(thorough: bool, rng: &mut Rng) -> Vec<(&'static str, Blk)> {
     out.push(("statement", stmts(vec![St::While(Ex::True, Blk { stmts: vec![], last: Some(Last::Break) })])));
     out.push(("statement", stmts(vec![St::While(Ex::True, Blk { stmts: vec![St::CallSt(call(a.clone(), vec![]))], last: Some(Last::Continue) })])));
     out.push(("statement", stmts(vec![St::Repeat(Blk { stmts: vec![St::Local(vec!["x".into()], vec![num(1.0)])], last: Some(Last::Break) }, id("x"))])));
-    out.push(("statement", stmts(vec![St::Function(vec!["a".into(), "b".into(), "c".into()], Some("m".into()), Func { params: vec!["p".into(), "q".into()], variadic: true, body: ret(vec![Ex::Varargs, id("p")]) })])));
+    out.push(("statement", stmts(vec![St::Function(vec!["a".into(), "b".into(), "c".into()], Some("m".into()), Func { params: vec!["p".into(), "q".into()], variadic: true, body: ret(vec![Ex::Varargs, id("p")]), sig: None })])));
     out.push(("statement", stmts(vec![St::If(vec![(a.clone(), ret(vec![])), (b.clone(), ret(vec![num(1.0)])), (c.clone(), stmts(vec![]))], None)])));
     out.push(("statement", ret(vec![])));
     out.push(("statement", Blk::default()));
@@ -366,13 +478,13 @@ pub fn enumerated(thorough: bool, rng: &mut Rng) -> Vec<(&'static str, Blk)> {
         k.push(Ex::Str(long_text(64)));
         k.push(Ex::Table(vec![Entry::Val(num(1.0)), Entry::Fld("x".into(), a.clone()), Entry::Idx(b.clone(), c.clone())]));
         k.push(Ex::Table(vec![Entry::Val(Ex::Table(vec![Entry::Val(call(a.clone(), vec![]))])), Entry::Val(Ex::Varargs)]));
-        k.push(Ex::Func(Box::new(Func { params: vec!["p".into()], variadic: true, body: ret(vec![Ex::Varargs]) })));
+        k.push(Ex::Func(Box::new(Func { params: vec!["p".into()], variadic: true, body: ret(vec![Ex::Varargs]), sig: None })));
         k.push(Ex::Call(bx(a.clone()), Some("m".into()), Args::Tuple(vec![num(1.0), Ex::Varargs])));
         k.push(Ex::Call(bx(call(a.clone(), vec![])), None, Args::Table(vec![Entry::Val(num(1.0))])));
         k.push(paren(call(a.clone(), vec![])));
         k.push(paren(Ex::Varargs));
-        k.push(Ex::Cast(bx(bin(8, a.clone(), b.clone())), "T".into()));
-        k.push(Ex::Cast(bx(Ex::Cast(bx(a.clone()), "T".into())), "U".into()));
+        k.push(Ex::Cast(bx(bin(8, a.clone(), b.clone())), tname("T")));
+        k.push(Ex::Cast(bx(Ex::Cast(bx(a.clone()), tname("T"))), tname("U")));
         k.push(Ex::IfExp(bx(a.clone()), bx(Ex::IfExp(bx(b.clone()), bx(num(1.0)), vec![], bx(num(2.0)))), vec![], bx(Ex::IfExp(bx(c.clone()), bx(num(3.0)), vec![], bx(num(4.0))))));
         k
     };
@@ -479,11 +591,29 @@ impl Gen {
     fn func(&mut self, d: usize) -> Func {
         let n = self.rng.below(3);
         let saved = std::mem::replace(&mut self.in_loop, false);
-        let f = Func {
+        let mut f = Func {
             params: (0..n).map(|_| self.name()).collect(),
             variadic: self.rng.chance(1, 3),
             body: self.block(d),
+            sig: None,
         };
+        if self.casts && self.rng.chance(1, 3) {
+            let generics = match self.rng.below(4) {
+                0 => vec![Generic::Var("G".into())],
+                1 => vec![Generic::Var("G".into()), Generic::Pack("P".into())],
+                2 => vec![Generic::Pack("P".into())],
+                _ => vec![],
+            };
+            let sig = Sig {
+                generics,
+                param_types: (0..n).map(|_| if self.rng.chance(2, 3) { Some(gen_ty(&mut self.rng, 2)) } else { None }).collect(),
+                variadic_type: if f.variadic && self.rng.chance(1, 2) { Some(gen_var(&mut self.rng, 1)) } else { None },
+                ret: if self.rng.chance(2, 3) { Some(gen_ret(&mut self.rng, 2)) } else { None },
+            };
+            if !sig.is_empty() {
+                f.sig = Some(Box::new(sig));
+            }
+        }
         self.in_loop = saved;
         f
     }
@@ -525,7 +655,13 @@ impl Gen {
                     if matches!(&inner, Ex::Num(n) if n.is_negative()) {
                         inner = paren(inner);
                     }
-                    Ex::Cast(bx(inner), (*self.rng.pick(&["T", "number", "Foo"])).to_owned())
+                    let ty = if self.rng.chance(1, 2) {
+                        tname(*self.rng.pick(&["T", "number", "Foo"]))
+                    } else {
+                        let depth = self.rng.below(3);
+                        gen_ty(&mut self.rng, depth)
+                    };
+                    Ex::Cast(bx(inner), ty)
                 } else {
                     self.leaf()
                 }
@@ -547,6 +683,23 @@ impl Gen {
         let d1 = d.saturating_sub(1);
         let e = 2.min(d + 1);
         let kinds = if d == 0 { 4 } else { 12 };
+        if self.casts && self.rng.chance(1, 10) {
+            return if self.rng.chance(1, 2) {
+                let n = 1 + self.rng.below(3);
+                let names = (0..n)
+                    .map(|_| (self.name(), if self.rng.chance(2, 3) { Some(gen_ty(&mut self.rng, 2)) } else { None }))
+                    .collect();
+                St::LocalT(names, self.exprs(e, 0, 2))
+            } else {
+                let generics = match self.rng.below(5) {
+                    0 => vec![Generic::Var("A".into())],
+                    1 => vec![Generic::Var("A".into()), Generic::VarDefault("B".into(), gen_ty(&mut self.rng, 1))],
+                    2 => vec![Generic::Var("A".into()), Generic::Pack("P".into())],
+                    _ => vec![],
+                };
+                St::TypeDecl(self.rng.chance(1, 3), (*self.rng.pick(&["T", "Foo", "e1", "_K"])).to_owned(), generics, gen_ty(&mut self.rng, 3))
+            };
+        }
         match self.rng.below(kinds) {
             0 => {
                 let n = 1 + self.rng.below(2);
@@ -636,7 +789,7 @@ fn enders(c1: char) -> Vec<Ex> {
     match c1 {
         'e' => v.push(Ex::True),
         'l' => v.push(Ex::Nil),
-        'd' => v.push(Ex::Func(Box::new(Func { params: vec![], variadic: false, body: Blk::default() }))),
+        'd' => v.push(Ex::Func(Box::new(Func { params: vec![], variadic: false, body: Blk::default(), sig: None }))),
         '.' => v.push(Ex::Varargs),
         ']' => v.push(Ex::Index(bx(id("t")), bx(num(1.0)))),
         _ => {}
@@ -705,7 +858,7 @@ pub fn adjacency_witnesses(c1: char, c2: char, variant: usize, all_forms: bool) 
             ('i', stmts(vec![St::Local(vec!["v".into()], vec![e.clone()]), St::If(vec![(a.clone(), empty())], None)])),
             ('w', stmts(vec![St::Local(vec!["v".into()], vec![e.clone()]), St::While(a.clone(), empty())])),
             ('f', stmts(vec![St::Local(vec!["v".into()], vec![e.clone()]), St::NFor("i".into(), num(1.0), num(2.0), None, empty())])),
-            ('f', stmts(vec![St::Local(vec!["v".into()], vec![e.clone()]), St::Function(vec!["g".into()], None, Func { params: vec![], variadic: false, body: empty() })])),
+            ('f', stmts(vec![St::Local(vec!["v".into()], vec![e.clone()]), St::Function(vec!["g".into()], None, Func { params: vec![], variadic: false, body: empty(), sig: None })])),
             ('a', ret(vec![bin(0, e.clone(), a.clone())])),
             ('o', ret(vec![bin(1, e.clone(), a.clone())])),
             ('t', stmts(vec![St::If(vec![(e.clone(), empty())], None)])),
@@ -741,7 +894,7 @@ pub fn adjacency_witnesses(c1: char, c2: char, variant: usize, all_forms: bool) 
         't' => starters.push(Ex::True),
         'f' => {
             starters.push(Ex::False);
-            starters.push(Ex::Func(Box::new(Func { params: vec![], variadic: false, body: Blk::default() })));
+            starters.push(Ex::Func(Box::new(Func { params: vec![], variadic: false, body: Blk::default(), sig: None })));
         }
         'n' => {
             starters.push(Ex::Nil);
@@ -782,8 +935,8 @@ pub fn adjacency_witnesses(c1: char, c2: char, variant: usize, all_forms: bool) 
             ('l', stmts(vec![St::Local(vec![name.clone()], vec![])])),
             ('r', stmts(vec![St::NFor(name.clone(), num(1.0), num(2.0), None, empty())])),
             ('r', stmts(vec![St::GFor(vec![name.clone()], vec![a.clone()], empty())])),
-            ('n', stmts(vec![St::Function(vec![name.clone()], None, Func { params: vec![], variadic: false, body: empty() })])),
-            ('n', stmts(vec![St::LocalFn(name.clone(), Func { params: vec![], variadic: false, body: empty() })])),
+            ('n', stmts(vec![St::Function(vec![name.clone()], None, Func { params: vec![], variadic: false, body: empty(), sig: None })])),
+            ('n', stmts(vec![St::LocalFn(name.clone(), Func { params: vec![], variadic: false, body: empty(), sig: None })])),
         ];
         let matching: Vec<Blk> = forms.into_iter().filter(|(last, _)| *last == c1).map(|(_, b)| b).collect();
         pick(matching, &mut out);
